@@ -140,7 +140,7 @@ def stepLine (s : Sys) (line : String) : Sys × String :=
           | some (fs, rest) => go f rest (fs :: acc)
           | none => (acc.reverse, b)
       let (reqs, rest) := go (buf.length + 1) buf []
-      (s, "P " ++ ";".intercalate (reqs.map fun r => ",".intercalate (r.map fun f => if f.isEmpty then "_" else toHex f)) ++ " | " ++ (if rest.isEmpty then "_" else toHex rest))
+      (s, "P " ++ ";".intercalate (reqs.map fun r => if r.isEmpty then "-" else ",".intercalate (r.map fun f => if f.isEmpty then "_" else toHex f)) ++ " | " ++ (if rest.isEmpty then "_" else toHex rest))
   | _ => (s, "bad-op")
 
 partial def loop (h : IO.FS.Stream) (out : IO.FS.Stream) (s : Sys) : IO Unit := do
